@@ -5,6 +5,7 @@ package c06
 
 import (
 	"fmt"
+	"strings"
 	"testing"
 
 	"github.com/crillab/gophersat/solver"
@@ -59,12 +60,26 @@ func check(c Case, o *vf.Obs) error {
 	o.ClassIf(on.Stats.NbRestarts > 0, "restart>0")
 	o.ClassIf(len(on.Cert) > 0, "cert-lines>0")
 	o.ClassIf(len(on.Cert) >= 20, "cert-lines>=20")
+	maxLine := 0
+	for _, l := range on.Cert {
+		if len(l) > maxLine {
+			maxLine = len(l)
+		}
+	}
+	o.ClassIf(maxLine >= 100, "cert-line>=100-lits")
+	o.ClassIf(maxLine > 500, "cert-line>500-lits")
+	o.ClassIf(maxLine > 10000, "cert-line>10000-lits")
 	o.ClassIf(parseStatus != solver.Indet, "parse-decided")
 	for _, line := range on.Cert {
 		for _, l := range line {
 			if l > n || -l > n {
 				return fmt.Errorf("certificate line %v mentions a variable beyond %d", line, n)
 			}
+		}
+	}
+	if strings.HasPrefix(c.Family, "ladder-") {
+		if want := c.Family == "ladder-unsat"; want != (on.Status == solver.Unsat) {
+			return fmt.Errorf("verdict %v on a %s formula (truth known by construction)", on.Status, c.Family)
 		}
 	}
 	switch on.Status {
@@ -167,6 +182,21 @@ func genHeavy(t *rapid.T) Case {
 	return c
 }
 
+// genLadder: learned clauses of hundreds / thousands of literals (size thresholds of buffers and heuristics).
+func genLadder(t *rapid.T) Case {
+	var c Case
+	nx := rapid.SampledFrom([]int{30, 120, 300, 520, 520, 600, 700}).Draw(t, "nx") + rapid.IntRange(0, 40).Draw(t, "plus")
+	if gen.Chance(t, 1, 4, "huge") {
+		nx = 10001 + rapid.IntRange(0, 300).Draw(t, "hugePlus") // beyond the solver's 10 000-literal scratch buffer
+	}
+	var tail string
+	c.N, c.Clauses, tail = gen.Ladder(t, nx)
+	c.Family = "ladder-" + tail
+	c.Entry = rapid.SampledFrom([]string{"slicenb", "cnf"}).Draw(t, "entry")
+	c.Buffered = false
+	return c
+}
+
 // genRestart: instances large enough for the restart policy to fire (n >= 100 at the threshold).
 func genRestart(t *rapid.T) Case {
 	var c Case
@@ -187,6 +217,8 @@ func init() {
 		vf.Sub[Case]{Name: "threshold-3sat", Quick: 300, Thorough: 3000, Gen: genHeavy, Check: check, Floor: 0.25,
 			Classes: map[string]float64{"cert-lines>=20": 0.4},
 			Rule:    "uniform 3-SAT n in 30..100 (thorough ..150), ratio 4.0..4.6" + tail},
+		vf.Sub[Case]{Name: "long-learned-clauses", Quick: 40, Thorough: 100, Gen: genLadder, Check: check, Floor: 0.2,
+			Rule: "'ladder' formulas: one clause over 30..1100 (sometimes 10 001+) variables, split on a helper, plus an implication chain x_k -> x_k+1 (each split on a helper) with or without 'not x_n', or a single gadget; variables numbered helpers-first/last and ascending/descending: the learned clauses hold hundreds to thousands of literals; the truth (unsat / sat) is known by construction and checked through the model / the independent RUP replay" + tail},
 		vf.Sub[Case]{Name: "restart-prone-3sat", Quick: 120, Thorough: 1200, Gen: genRestart, Check: check, Floor: 0.25,
 			Classes: map[string]float64{"restart>0": 0.12},
 			Rule:    "uniform 3-SAT n in 100..150, ratio 4.0..4.6: hundreds to thousands of conflicts, so that restarts (and clause-database reductions with the lowered limit) happen before the answer" + tail},
